@@ -51,7 +51,7 @@ Laws(rs) ==
     /\ (Live(rs) # {}) =>
          /\ RLe(rs[MinE(rs)].E, c.E) /\ RLe(c.E, rs[MaxE(rs)].E)           \* between the smallest and the largest estimate
          /\ \A i \in Live(rs) : RLe(c.V, rs[i].V)                            \* error no larger than any S_i
-    /\ Chi2(rs)[1] = "inf" \/ RLe(RZero, Chi2(rs)[2])
+    /\ (\A i \in 1 .. Len(rs) : rs[i].nz # 0) => (Chi2(rs)[1] = "inf" \/ RLe(RZero, Chi2(rs)[2]))   \* (empty results have no variance)
 \* conditioning of (value, error) <-> (sum, sumsq): 1 + N E^2 / ((N - 1) V)
 Kappa(c) == IF c.N < 2 \/ c.V[1] = 0 THEN ROne ELSE RAdd(ROne, RDiv(RMul(R(c.N), RMul(c.E, c.E)), RMul(R(c.N - 1), c.V)))
 =============================================================================
